@@ -181,6 +181,33 @@ let random_fault (p : Syntax.program) (c : fctx) (want : Faults.fclass option) :
        | None -> go (tries - 1)) in
   go 40
 
+(* syntactic position of a plant site (for the table of known findings): the kind of a zapped occurrence, refined by
+   the kind of design unit it is in *)
+let okind_name (k : Faults.okind) = match k with
+  | Faults.OUse -> "use" | Faults.OLibPrefix -> "library_prefix" | Faults.OField -> "field" | Faults.OItem -> "item"
+  | Faults.OLibClause -> "library_clause" | Faults.OUnit -> "unit" | Faults.OArch -> "architecture"
+  | Faults.OFormal -> "formal" | Faults.OOther -> "other"
+let unit_kind_of_nid (p : Syntax.program) (nid : int) : string =
+  let res = ref "?" in
+  Stdlib.List.iter (fun (lb : Syntax.library) ->
+    Stdlib.List.iter (fun (u : Syntax.dunit) ->
+      if Stdlib.List.exists (fun x -> int_of_n x = nid) (Syntax.nids_dunit u) then
+        res := (match u.Syntax.u_body with
+            | Syntax.UPkg (_, _) -> "package" | Syntax.UBody (_, _) -> "package_body" | Syntax.UEnt (_, _, _) -> "entity"
+            | Syntax.UArch (_, _, _, _) -> "architecture" | Syntax.UCfg (_, _, _) -> "configuration"
+            | Syntax.UCtx (_, _) -> "context" | Syntax.UGen (_, _, _) -> "generic_package"
+            | Syntax.UInst (_, _, _, _) -> "package_instance")) lb.Syntax.l_units) p;
+  !res
+let site_kind (p : Syntax.program) (st : Faults.fsite) : string =
+  match st with
+  | Faults.SZap s ->
+    let k = (match Stdlib.List.find_opt (fun ((n, _), _) -> int_of_n n = int_of_n s) (Faults.occs_program p) with
+        | Some ((_, k), _) -> okind_name k | None -> "?") in
+    let u = unit_kind_of_nid p (int_of_n s) in
+    if k = "architecture" && u = "configuration" then "block_config_architecture" else k ^ "_in_" ^ u
+  | Faults.SDup s -> "declaration_in_" ^ unit_kind_of_nid p (int_of_n s)
+  | _ -> "phrase_in_" ^ unit_kind_of_nid p (int_of_n (Faults.site_nid st))
+
 let handle_case pid tag nrew depth nfaults rseed fwant choices =
   rng := rseed * 7919 + 13;
   let fell = Gen.gen_fell_back choices in
@@ -205,6 +232,7 @@ let handle_case pid tag nrew depth nfaults rseed fwant choices =
       let id = Printf.sprintf "%s.f%d" pid k in
       let (en, ec) = Faults.expect f st p in
       Printf.printf "M %s fault %s %s\n" id (fclass_name f) (site_str st);
+      Printf.printf "M %s site_kind %s\n" id (site_kind p st);
       Printf.printf "M %s expect %d %s\n" id (int_of_n en) (cls_name ec);
       (match Sem.blame_program q with
        | Some (bn, bc) -> Printf.printf "M %s blame %d %s\n" id (int_of_n bn) (cls_name bc)
